@@ -35,3 +35,28 @@ func specIsLast(n *Node) bool {
 //@ func gtree.Node.isLastOfHierarchy
 //@   requires nn: n != nil
 //@   ensures islast [C01,C03,C13]: result == specIsLast(n)
+
+// ---------------------------------------------------------------------------------------------
+// stack.go
+
+//@ pred chain(s *stack): s != nil && s.nodes != nil && (forall k int :: {s.nodes.view[k]} 0 <= k && k < len(s.nodes.view) ==> s.nodes.view[k] != nil && isType(s.nodes.view[k], Node) && as(s.nodes.view[k], Node).hierarchy == k + 1 && (k > 0 ==> contains(as(s.nodes.view[k-1], Node).children, s.nodes.view[k])))
+
+//@ pred hasChildNamed(p *Node, name string): exists j int :: 0 <= j && j < len(p.children) && p.children[j].name == name
+
+//@ func gtree.newStack
+//@   ensures fresh: fresh(result) && result.nodes != nil && len(result.nodes.view) == 0
+
+//@ func gtree.stack.dfs
+//@   requires chain: chain(s) && len(s.nodes.view) >= 1
+//@   requires cur: current != nil && current.parent == nil && len(current.children) == 0 && current.hierarchy >= 2
+//@   requires orphan: forall q *Node, i int :: {q.children[i]} 0 <= i && i < len(q.children) ==> q.children[i] != current
+//@   modifies s.nodes.view, list.Element.backOf, Node.children, Node.parent
+//@   ensures chain': chain(s)
+//@   ensures merge [C01,C03]: current.hierarchy <= old(len(s.nodes.view)) + 1 && old(hasChildNamed(as(s.nodes.view[current.hierarchy-2], Node), current.name)) ==> len(s.nodes.view) == current.hierarchy && as(last(s.nodes.view), Node).name == current.name && contains(old(as(s.nodes.view[current.hierarchy-2], Node).children), last(s.nodes.view)) && (forall q *Node :: {q.children} q.children == old(q.children)) && (forall q *Node :: {q.parent} q.parent == old(q.parent))
+//@   ensures attach [C01,C02]: current.hierarchy <= old(len(s.nodes.view)) + 1 && !old(hasChildNamed(as(s.nodes.view[current.hierarchy-2], Node), current.name)) ==> len(s.nodes.view) == current.hierarchy && last(s.nodes.view) == current && current.parent == old(s.nodes.view[current.hierarchy-2]) && current.parent.children == old(as(s.nodes.view[current.hierarchy-2], Node).children) ++ seqof(current) && (forall q *Node :: {q.children} q != current.parent ==> q.children == old(q.children)) && (forall q *Node :: {q.parent} q != current ==> q.parent == old(q.parent))
+//@   ensures prefix: current.hierarchy <= old(len(s.nodes.view)) + 1 ==> take(s.nodes.view, current.hierarchy - 1) == take(old(s.nodes.view), current.hierarchy - 1)
+//@ loop gtree.stack.dfs#1
+//@   invariant popped: s.nodes.view == take(old(s.nodes.view), size - $i) && size == len(old(s.nodes.view))
+//@   invariant heap: (forall q *Node :: {q.children} q.children == old(q.children)) && (forall q *Node :: {q.parent} q.parent == old(q.parent))
+//@   invariant nomatch: forall k int :: {old(s.nodes.view)[k]} size - $i <= k && k < size ==> k + 2 != current.hierarchy
+
